@@ -873,3 +873,88 @@ def r66(ctx: Ctx) -> RuleReport:
             else:
                 rep.ok(key, fi.loc(node), 'no pop() reaches this read')
     return rep
+
+
+@rule('R32', 'a value cast to Variable that may be a constant is known to be a variable before it becomes the source of a graph triple')
+def r32(ctx: Ctx) -> RuleReport:
+    from ..resolve import expand, facts_ex, view
+    rep = RuleReport('R32', r32.title, floor=3)
+    repo = ctx.repo
+
+    def is_cast_var(e) -> bool:
+        return isinstance(e, ast.Call) and norm(e.func) in ('cast', 'typing.cast') and len(e.args) == 2 and norm(e.args[0]) == 'Variable'
+    # producers: functions returning a triple whose source slot is cast(Variable, <something derived from a parameter>)
+    producers: Dict[str, FuncInfo] = {}
+    for fi in repo.all_functions():
+        for r in [n for n in walk_local(fi.node) if isinstance(n, ast.Return) and n.value is not None]:
+            v = r.value
+            if isinstance(v, ast.Tuple) and len(v.elts) == 3:
+                s0 = v.elts[0]
+                if is_cast_var(s0):
+                    producers[fi.fq] = fi
+                elif isinstance(s0, ast.Name):
+                    vals = [x for x in ctx.cg.local_assigns(fi).get(s0.id, []) if isinstance(x, ast.AST)]
+                    if any(is_cast_var(x) for x in vals):
+                        producers[fi.fq] = fi
+    changed = True
+    while changed:      # wrappers: return <producer>(own parameter)
+        changed = False
+        for fi in repo.all_functions():
+            if fi.fq in producers:
+                continue
+            for c, ts in ctx.cg.calls_in(fi):
+                if any(t.kind == 'func' and t.func.fq in producers for t in ts) and c.args and isinstance(c.args[0], ast.Name) \
+                        and c.args[0].id in fi.params:
+                    par = repo.parent_map(fi.node).get(id(c))
+                    if isinstance(par, (ast.Return, ast.Assign)):
+                        producers[fi.fq] = fi
+                        changed = True
+    rep.analysed['producers'] = sorted(producers)
+    if len(producers) < 2:
+        raise AnalysisError(f'R32: expected Model.invert / Model.dereify among the producers, found {sorted(producers)}')
+    consumers = [f for f in repo.all_functions() if f.module.name == 'penman.transform' or f.fq == 'penman.layout:_interpret_node']
+    for fi in consumers:
+        v = view(ctx, fi)
+        for c, ts in ctx.cg.calls_in(fi):
+            ps = [t.func for t in ts if t.kind == 'func' and t.func.fq in producers]
+            if not ps:
+                continue
+            key = f'{fi.module.name}:{fi.qualname}: {norm(c)[:60]}'
+            # (a) the argument's target slot is a variable by type or by a dominating membership test
+            a0 = c.args[0] if c.args else None
+            proven = None
+            if isinstance(a0, ast.Name):
+                from ..resolve import unique_def
+                a0 = unique_def(v, a0.id, c) or a0
+            if isinstance(a0, ast.Tuple) and len(a0.elts) == 3:
+                t = ctx.types.type_of(fi, c.args[0].elts[2]) if isinstance(c.args[0], ast.Tuple) else frozenset()
+                only_var = bool(t) and all(a[0] in ('Var',) for a in t)
+                src = norm(a0.elts[2])
+                fx = facts_ex(ctx, fi, c)
+                guarded = any(pol and f.startswith(f'{src} in ') for f, pol in fx)
+                nested = src.endswith('[0]') and (f'is_atomic({src[:-3]})', False) in fx
+                if only_var:
+                    proven = f'{src} is typed as a variable'
+                elif guarded:
+                    proven = f'`{src} in ...` holds at the call'
+                elif nested:
+                    proven = f'{src} is the variable of a nested node (is_atomic({src[:-3]}) is false here)'
+            # (b) the source slot of the result is tested before the result is used
+            if proven is None:
+                par = v.pm.get(id(c))
+                res = par.targets[0].id if isinstance(par, ast.Assign) and isinstance(par.targets[0], ast.Name) else None
+                if res:
+                    uses = [n for n in walk_local(fi.node) if isinstance(n, ast.Name) and n.id == res and isinstance(n.ctx, ast.Load)
+                            and not (isinstance(v.pm.get(id(n)), ast.Subscript) and isinstance(v.pm.get(id(v.pm.get(id(n)))), ast.Compare))]
+                    tested = [u for u in uses if any((pol and f.startswith(f'{res}[0] in ')) or (not pol and f.startswith(f'{res}[0] not in '))
+                                                      for f, pol in facts_ex(ctx, fi, u))]
+                    if uses and len(tested) == len(uses):
+                        proven = f'every use of `{res}` is dominated by a membership test of {res}[0]'
+                    elif uses:
+                        u = next(x for x in uses if x not in tested)
+                        rep.violation(key, fi.loc(u), f'the source of the triple returned by {ps[0].qualname} is a target cast to Variable; `{res}` is '
+                                      f'used here without any test that {res}[0] is a variable of the graph: when the relation\'s source role '
+                                      f'points to a constant the result is a triple whose source is not a node')
+                        continue
+            rep.add(key, fi.loc(c), 'ok' if proven else 'undecided', proven or 'neither the argument nor the result is shown to have a variable in source position')
+    return rep
